@@ -303,6 +303,13 @@ theorem dirstructure_children_registered_as_named (root : Path) (perm : Nat) (ca
     p < i ∧ n.path = join2 ((treeAfter (newDirStructure root perm) calls).pathOf p) n.key :=
   (dwf_treeAfter (dwf_new root perm) calls).2.2.2 i n hn p hp
 
+/-- The source still has the shape the invariant above is read from (facts regenerated from `utils/structure.go`
+    on every run): `ChildDir` registers and builds the path from the same, unmodified name parameter, and `ensure`
+    finds children only by `Children[pathDirs[0]]`. -/
+theorem dirstructure_source_registers_children_as_named :
+    PB.Gen.Paths.childDirKeyIsGivenName = true ∧ PB.Gen.Paths.childDirPathJoinsGivenName = true ∧
+      PB.Gen.Paths.ensureLooksUpByElement = true := by decide
+
 /-- In every reachable tree, on every node: a requested absolute path that leaves the root is refused
     (so a child registered under an escaping name, e.g. `ChildDir("../evil")`, can never be ensured itself). -/
 theorem dirstructure_history_rejects (root : Path) (perm : Nat) (hr : isAbs root = true) (calls : List DCall) (h : Nat)
